@@ -689,6 +689,7 @@ func init() {
 			}
 			var res StoreResult
 			json.Unmarshal(r.Res, &res)
+			attachItem(res.Viol, "store", raw[r.Index])
 			tot.Seqs += res.Seqs
 			tot.Ops += res.Ops
 			tot.Reads += res.Reads
